@@ -78,9 +78,9 @@ func (nfs *Nfs) makeRootDir() {
 	if ip == nil {
 		panic("makeRootDir")
 	}
-	dir.MkRootDir(ip, op)
+	okdir := dir.MkRootDir(ip, op)
 	ok := op.Commit()
-	if !ok {
+	if !ok || !okdir {
 		panic("makeRootDir")
 	}
 }
@@ -104,7 +104,7 @@ func markAlloc(super *super.FsSuper, n common.Bnum, m common.Bnum) {
 		super.NBlockBitmap*common.NBITBLOCK)
 	if n >= common.Bnum(common.NBITBLOCK) ||
 		m >= common.Bnum(common.NBITBLOCK*super.NBlockBitmap) ||
-		m < n {
+		m <= n {
 		panic("markAlloc: configuration makes no sense")
 	}
 	blk := make(disk.Block, disk.BlockSize)
